@@ -87,8 +87,7 @@ pub(crate) fn same_bytes(out: &[u8], reference: &[u8]) -> bool {
     true
 }
 
-/// Parsing the frame yields the expected message - through the message's own parser and through
-/// the kind dispatch of `Message::deserialize_message`.
+/// Parsing the frame with the message's own parser yields the expected message.
 pub(crate) fn check_decode<M>(f: &Frame, expect: M)
 where
     M: MessageOps + Clone + PartialEq + Into<Message>,
@@ -99,7 +98,23 @@ where
         Err(_) => panic!("well-formed frame rejected"),
     }
     std::mem::forget(r);
-    let r = Message::deserialize_message(BytesMut::from(f.bytes()));
+    std::mem::forget(expect);
+}
+
+/// ... and so does the kind dispatch of `Message::deserialize_message`.
+pub(crate) fn check_dispatch<M>(f: &Frame, expect: M)
+where
+    M: MessageOps + Clone + PartialEq + Into<Message>,
+{
+    // byte-wise stores instead of a memcpy: the kind byte has to stay a constant for CBMC, or all
+    // 63 parsers behind the dispatch are explored
+    let mut b = BytesMut::with_capacity(FRAME_CAP);
+    let mut i = 0;
+    while i < f.len {
+        bytes::BufMut::put_u8(&mut b, f.buf[i]);
+        i += 1;
+    }
+    let r = Message::deserialize_message(b);
     let want: Message = expect.into();
     match &r {
         Ok(m) => assert!(*m == want, "kind dispatch parsed a different message"),
@@ -128,27 +143,40 @@ where
     assert!(same_bytes(&out2, f.bytes()), "Message::serialize_message writes a different frame");
 }
 
-/// Strictness: a wrong length prefix, a trailing byte and a truncated frame are all rejected, by
-/// the message's own parser and without panicking.
-pub(crate) fn check_strict<M>(f: &Frame, _msg: M)
+/// Strictness, one mutation per harness (each parse is a CBMC run of its own; five in one run
+/// did not finish): the length prefix one too large / one too small ...
+pub(crate) fn check_prefix<M>(f: &Frame, _msg: M, delta_up: bool)
 where
     M: MessageOps + Clone + PartialEq + Into<Message>,
 {
     std::mem::forget(_msg);
-    // length prefix one too large / one too small
     let mut g = Frame { buf: f.buf, len: f.len };
-    g.buf[0] = (f.len + 1) as u8;
-    assert!(M::deserialize_message(BytesMut::from(g.bytes())).is_err(), "length prefix beyond the frame accepted");
-    g.buf[0] = (f.len - 1) as u8;
-    assert!(M::deserialize_message(BytesMut::from(g.bytes())).is_err(), "length prefix short of the frame accepted");
-    // one trailing byte, prefix adjusted
+    g.buf[0] = if delta_up { (f.len + 1) as u8 } else { (f.len - 1) as u8 };
+    let r = M::deserialize_message(BytesMut::from(g.bytes()));
+    assert!(r.is_err(), "length prefix that differs from the frame length accepted");
+    std::mem::forget(r);
+}
+
+/// ... one trailing byte (prefix adjusted) ...
+pub(crate) fn check_trailing<M>(f: &Frame, _msg: M)
+where
+    M: MessageOps + Clone + PartialEq + Into<Message>,
+{
+    std::mem::forget(_msg);
     let mut t = Frame { buf: f.buf, len: f.len };
     t.byte(kani::any());
     t.finish();
     let r = M::deserialize_message(BytesMut::from(t.bytes()));
     assert!(r.is_err(), "trailing data accepted");
     std::mem::forget(r);
-    // last byte missing, prefix adjusted
+}
+
+/// ... the last byte missing (prefix adjusted) ...
+pub(crate) fn check_truncated<M>(f: &Frame, _msg: M)
+where
+    M: MessageOps + Clone + PartialEq + Into<Message>,
+{
+    std::mem::forget(_msg);
     if f.len > 5 {
         let mut s = Frame { buf: f.buf, len: f.len - 1 };
         s.finish();
@@ -156,10 +184,39 @@ where
         assert!(r.is_err(), "truncated frame accepted");
         std::mem::forget(r);
     }
-    // another kind's parser refuses the frame
+}
+
+/// ... and the frame of another kind.
+pub(crate) fn check_other_kind<M>(f: &Frame, _msg: M)
+where
+    M: MessageOps + Clone + PartialEq + Into<Message>,
+{
+    std::mem::forget(_msg);
     let mut k = Frame { buf: f.buf, len: f.len };
     k.buf[4] = if f.buf[4] == 30 { 31 } else { 30 };
     let r = M::deserialize_message(BytesMut::from(k.bytes()));
     assert!(r.is_err(), "frame of a different kind accepted");
+    std::mem::forget(r);
+}
+
+/// A frame whose value-length field is 0 (and that is otherwise consistent: the value bytes are
+/// removed, the length prefix is adjusted) is not well-formed - every value has at least its kind
+/// byte - and must be rejected, without panicking. `vlen` = length of the frame's value.
+pub(crate) fn check_empty_value<M>(f: &Frame, vlen: usize, _msg: M)
+where
+    M: MessageOps + Clone + PartialEq + Into<Message>,
+{
+    std::mem::forget(_msg);
+    assert!(f.buf[5] as usize == vlen && f.len >= 9 + vlen);
+    let mut g = Frame { buf: f.buf, len: 9 };
+    g.buf[5] = 0;
+    let mut i = 9 + vlen;
+    while i < f.len {
+        g.byte(f.buf[i]);
+        i += 1;
+    }
+    g.finish();
+    let r = M::deserialize_message(BytesMut::from(g.bytes()));
+    assert!(r.is_err(), "a frame with an empty value was accepted");
     std::mem::forget(r);
 }
